@@ -401,6 +401,9 @@ impl Run {
 
     /// M2/M3: checks every request recorded since the last call.
     pub fn check_requests(&mut self) -> Result<(), String> {
+        if can::verif_hooks::requests_len() == self.sc.last_request_checked {
+            return Ok(());
+        }
         let reqs = world::requests_seen();
         for i in self.sc.last_request_checked..reqs.len() {
             let r = &reqs[i];
